@@ -8,6 +8,7 @@ import re
 
 import z3
 
+from .. import witness
 from ..symex import (FALSE, GENERIC_MODELS, TRUE, Enum, Exec, Opaque, Ref, State, Struct, SymEnum, Tup, Unsupported)
 from .util import variant_index
 
@@ -25,20 +26,37 @@ def stream_model(nmax):
 
 
 def expected_filter(events):
-    """Reference semantics of one FilterIter::next() call over the event list; returns ('none',) | ('row',k) | ('err', tag)."""
-    k = None
+    """Reference semantics of one FilterIter::next() call, independent of the order in which the implementation asks its questions:
+    walking the input in order, an Err item is forwarded; an Ok row whose runtime compatibility check fails yields that error; an Ok
+    row whose predicate value is exactly Bool(true) is emitted; any other row is skipped; end of input yields None.
+    Returns ('none',) | ('row',k) | ('err', tag) | ('unchecked', k) when a row was decided without consulting the compatibility check."""
+    rows = {}
+    order = []
     for e in events:
         m = re.match(r"^in(\d+)=(\w+)$", e)
         if m:
-            k = int(m.group(1))
-            if m.group(2) == "end":
-                return ("none",)
-            if m.group(2) == "Err":
-                return ("err", "err%d" % k)
+            order.append((int(m.group(1)), m.group(2)))
             continue
-        if e == "compat=Err":
+        m = re.match(r"^compat(\d+)=(\w+)$", e)
+        if m:
+            rows.setdefault(int(m.group(1)), {})["compat"] = m.group(2)
+            continue
+        m = re.match(r"^pred(\d+)=(\w+)$", e)
+        if m:
+            rows.setdefault(int(m.group(1)), {})["pred"] = m.group(2)
+    for k, kind in order:
+        if kind == "end":
+            return ("none",)
+        if kind == "Err":
+            return ("err", "err%d" % k)
+        r = rows.get(k, {})
+        if "compat" not in r:
+            return ("unchecked", k)
+        if r["compat"] == "Err":
             return ("err", "compat%d" % k)
-        if e == "pred=true":
+        if "pred" not in r:
+            return None
+        if r["pred"] == "true":
             return ("row", k)
     return None
 
@@ -61,17 +79,38 @@ def run_filter(nmax):
     def run(mf, tier):
         fn = mf.find(r"^fn plan_iterators::<impl at [^>]*>::next\(_1: &mut FilterIter<'_, S>\)")
 
+        # latent per-row outcomes: each question is answered consistently for a row, whenever and however often it is asked
         def m_compat(ex, st, a, dst, callee):
             k = st.env.get("$k", 0) - 1
-            return [(Enum("Ok", [Tup([])]), [], "compat=Ok"), (Enum("Err", [Opaque("compat%d" % k)]), [], "compat=Err")]
+            known = st.env.get("$compat%d" % k)
+            if known is not None:
+                return [(known, [], None)]
+            ok, err = Enum("Ok", [Tup([])]), Enum("Err", [Opaque("compat%d" % k)])
+            return [(("SET", "$compat%d" % k, ok), [], "compat%d=Ok" % k), (("SET", "$compat%d" % k, err), [], "compat%d=Err" % k)]
 
         def m_pred(ex, st, a, dst, callee):
-            return [(TRUE, [], "pred=true"), (FALSE, [], "pred=other")]
+            k = st.env.get("$k", 0) - 1
+            known = st.env.get("$pred%d" % k)
+            if known is not None:
+                return [(TRUE if known == "true" else FALSE, [], None)]
+            return [(("SET", "$pred%d" % k, "true", TRUE), [], "pred%d=true" % k), (("SET", "$pred%d" % k, "other", FALSE), [], "pred%d=other" % k)]
+
+        def m_value(ex, st, a, dst, callee):
+            # the predicate evaluated as a Value (refactorings may call the evaluator directly): Bool(true) | Bool(false) | Null
+            k = st.env.get("$k", 0) - 1
+            known = st.env.get("$pred%d" % k)
+            vals = {"true": Enum("Bool", [TRUE]), "false": Enum("Bool", [FALSE]), "other": Enum("Null")}
+            if known is not None:
+                return [(vals[known if known in vals else "other"], [], None)]
+            return [(("SET", "$pred%d" % k, "true", vals["true"]), [], "pred%d=true" % k),
+                    (("SET", "$pred%d" % k, "false", vals["false"]), [], "pred%d=other" % k),
+                    (("SET", "$pred%d" % k, "other", vals["other"]), [], "pred%d=other" % k)]
 
         models = GENERIC_MODELS + [(r"as Iterator>::next$", stream_model(nmax)),
-                                   (r"^ensure_runtime_expression_compatible::<", m_compat),
-                                   (r"^evaluate_expression_bool::<", m_pred)]
-        ex = Exec(fn, models, bound=nmax + 2, max_paths=20000)
+                                   (r"ensure_runtime_expression_compatible::<", m_compat),
+                                   (r"evaluate_expression_bool::<", m_pred), (r"evaluate_expression_value::<", m_value)]
+        vi = dict(variant_index("nervusdb-query/src/executor/core_types.rs", "Value"))
+        ex = SetExec(fn, models, bound=nmax + 2, max_paths=20000, variant_index=vi)
         st = State()
         st.env["$self"] = Struct("FilterIter", {0: Opaque("snapshot"), 1: Opaque("input"), 2: Opaque("predicate"), 3: Opaque("params")})
         st.env["_1"] = Ref("$self")
@@ -91,16 +130,36 @@ def run_filter(nmax):
             got = classify(p.ret)
             if want is None:
                 failed.append("next() returned before deciding an item on [%s]" % p.signature())
+            elif want[0] == "unchecked":
+                failed.append("FilterIter::next decides a row (returns %s) without consulting the runtime compatibility check, so a failing row "
+                              "can be dropped or emitted silently: [%s]" % (got, _shape(p)))
             elif got != want:
                 failed.append("FilterIter::next returns %s where the filter semantics require %s on [%s]" % (got, want, _shape(p)))
         res = {"paths": n, "queries": ex.queries, "solver_time_s": round(ex.solver_time, 3), "paths_cut_by_bound": cut,
                "sample": [p.signature() + " => " + repr(p.ret) for p in paths if p.kind == "return"][:8], "functions": [fn.header[:110]]}
         if failed:
             res.update({"status": "fail", "failed": sorted(set(failed))[:12], "reason": "; ".join(sorted(set(failed)))[:400]})
+            # public-API replay: a row whose predicate hides an ill-typed call behind a NULL-absorbing test must raise, with WHERE as without
+            cy = "UNWIND [1, [2], 3] AS x WITH x WHERE toInteger(x) IS NOT NULL RETURN x"
+            plain = "UNWIND [1, [2], 3] AS x RETURN toInteger(x) AS y"
+            r1, r2 = witness.query_rows(plain), witness.query_rows(cy)
+            res["witness_text"] = ["public-API replay: `%s` => %s" % (plain, r1), "                   `%s` => %s" % (cy, r2)]
+            if r1 is not None and r2 is not None:
+                res["reproduced"] = True if (r1.startswith("Err(") and r2.startswith("Ok(")) else None
         else:
             res["status"] = "pass"
         return res
     return run
+
+
+class SetExec(Exec):
+    """Models may return ("SET", env_key, env_value[, result]) to record a latent outcome on the chosen alternative only."""
+
+    def write(self, st, place, val):
+        if isinstance(val, tuple) and val and val[0] == "SET":
+            st.env[val[1]] = val[2]
+            val = val[3] if len(val) > 3 else val[2]
+        return super().write(st, place, val)
 
 
 def _shape(p):
